@@ -20,7 +20,7 @@ def harnesses(tier):
         hs.append(Harness(n, 'abi_buffer.' + n[len('c19_abibuf_'):], FA, bounded=B_BUF))
     for n in ['c19_write_canonical_len2_immediate', 'c19_write_canonical_len2_delivered', 'c19_write_canonical_len2_cancelled',
               'c19_write_lowered_len2_immediate', 'c19_write_lowered_len2_delivered', 'c19_write_lowered_len2_cancelled',
-              'c19_write_canonical_len0_immediate', 'c19_write_after_peer_dropped']:
+              'c19_write_canonical_len0_immediate', 'c19_write_after_peer_dropped', 'c19_write_after_partial_completed', 'c19_write_after_partial_cancelled']:
         hs.append(Harness(n, 'stream_write.' + n[len('c19_write_'):], FW, bounded=B_OP))
     def rd(n, sp):
         hs.append(Harness(n, 'stream_read.' + n[len('c19_read_'):], FR, bounded=B_OP.replace('spare capacity 2', 'spare capacity %s' % sp)))
@@ -36,6 +36,8 @@ def harnesses(tier):
             # (measured: ~8 min each; the delivered path runs the same in_progress_update as the cancelled path)
             rd('c19_read_canonical_delivered_%s_s2' % kn, 2)
             rd('c19_read_lowered_delivered_%s_s1' % kn, 1)
+    rd('c19_read_after_partial_completed', 2)
+    rd('c19_read_after_partial_cancelled', 2)
     hs.append(Harness('c19_read_after_peer_dropped', 'stream_read.after_peer_dropped', FR, bounded=B_OP))
     hs.append(Harness('c19_take_handle_transfers_ownership', 'stream_reader.take_handle_transfers_ownership', FR))
     return hs
